@@ -273,6 +273,23 @@ func c08Root(p c08p) func() {
 				}
 			}
 		}
+		// (f) Flush returned nil: every batch accepted before that Flush call began was flushed by a
+		// request queued ahead of Flush's own, and in these scenarios (no store errors, only Stop's
+		// cancellation) a request can fail only after the cancellation — after which no later
+		// request is answered nil. So none of those batches can hold an error.
+		if fi := logIndex(log, "call Flush"); fi >= 0 && logIndex(log, "ret Flush ok") >= 0 {
+			for _, r := range recs {
+				ai := logIndex(log, "ret "+r.name+" ok")
+				if ai < 0 || ai > fi || cap(r.done) == 0 || len(r.done) != 1 {
+					continue
+				}
+				v := <-r.done
+				r.done <- v
+				if v != nil {
+					vapi.Fail("C08: Flush returned nil although batch %s, accepted before Flush was called, was answered with an error (%v): a waiter behind an abandoned flush received success", r.name, v)
+				}
+			}
+		}
 		if serr != nil {
 			ri := logIndex(log, "ret Stop err")
 			// (d) no new unit of store work begins after Stop returned its deadline error
